@@ -348,6 +348,7 @@ def c07_generate(seed: int, tier: str) -> dict:
     systems = ["S0"]
     ops = []
     hot = None
+    recent_reads = []
     n_ops = orr.randint(5, 12 if tier == "quick" else 24)
     for _ in range(n_ops):
         r = orr.random()
@@ -364,14 +365,27 @@ def c07_generate(seed: int, tier: str) -> dict:
             systems.append(new)
             hot = _hot(mods)
         elif r < 0.30 and len(systems) > 1:
+            sid = pick(orr, systems[1:])
             mods = gen_mods(orr, tree)
-            ops.append({"actor": "W", "do": ["modify_again", pick(orr, systems[1:]), mods]})
+            seen = [x for x in recent_reads if x[0] == sid]
+            if seen and chance(orr, 0.7):
+                # change, through the documented route, exactly what this system was
+                # last *seen* to hold: the view at that instant was already read
+                _, path, date = seen[-1]
+                rg = pick(orr, [{"start": PW.shift(date, -3)}, {"start": PW.shift(date, -10), "stop": PW.shift(date, 10)}, {"start": date, "stop": date}])
+                mods = [["update", list(path), rg, round(orr.uniform(0, 10), 2)], *mods[:1]]
+            ops.append({"actor": "W", "do": ["modify_again", sid, mods]})
             hot = _hot(mods)
+            if seen and mods[0][0] == "update" and tuple(mods[0][1]) == tuple(seen[-1][1]):
+                hot = (tuple(seen[-1][1]), [seen[-1][2]])
         elif r < 0.36:
             ops.append({"actor": "W", "do": ["load_parameters", pick(orr, systems), pick(orr, ["T0", "T1"]), orr.randrange(1 << 30)]})
             hot = None
         else:
-            ops.append({"actor": pick(orr, ["R1", "R2"]), "do": gen_read(orr, tree, systems, hot)})
+            rd = gen_read(orr, tree, systems, hot)
+            ops.append({"actor": pick(orr, ["R1", "R2"]), "do": rd})
+            if rd[0] == "read":
+                recent_reads.append((rd[1], tuple(rd[3]), rd[4]))
     return {
         "format": 1,
         "property": "C07",
